@@ -1,3 +1,4 @@
+<<<<<<< HEAD
 import io, socket, sys, threading, time, subprocess, os
 sys.path.insert(0, sys.argv[1] if len(sys.argv) > 1 else "/repo")
 from vinegar.tftp.server import TftpServer, TftpRequestHandler
@@ -6,6 +7,30 @@ class H(TftpRequestHandler):
     def can_handle(self, filename, context): return True
     def handle(self, filename, client_address, server_address, context):
         return io.BytesIO(b"x" * 100)
+=======
+#!/usr/bin/env python3
+"""
+D20 (C02): a stream of ignored datagrams postpones retransmission and the end of a TFTP transfer.
+
+Real sockets, real vinegar.tftp.server.TftpServer on ::1, default_timeout=1 s, max_retries=1, a one-block file.
+The client receives DATA 1 and then says nothing; N other processes send stale ACKs (block 7) to the
+transfer's port as fast as they can for D seconds.  The property bounds the transfer by
+packets x (1 + max_retries) x timeout = 2 s: DATA 1 again at 1.0 s, the end at 2.0 s.  Before the repair,
+_set_socket_timeout answered "no time left" with a 1 ms socket time-out and received again, so as long as
+datagrams kept arriving less than 1 ms apart nothing timed out: the retransmission came only when the flood
+stopped (D s), the end one time-out later.
+
+usage: D20_flood_demo.py [repo] [N=3] [D=6]     exit 0 = within the bound, exit 1 = postponed
+"""
+import io
+import socket
+import subprocess
+import sys
+import time
+
+sys.path.insert(0, sys.argv[1] if len(sys.argv) > 1 else "/repo")
+from vinegar.tftp.server import TftpServer, TftpRequestHandler  # noqa: E402
+>>>>>>> dev-tftp
 
 FLOOD = r'''
 import socket, sys, time
@@ -16,16 +41,35 @@ while time.monotonic() < end:
         try: s.sendto(b"\0\4\0\7", tid)
         except OSError: pass
 '''
+<<<<<<< HEAD
+=======
+
+
+class H(TftpRequestHandler):
+    def can_handle(self, filename, context):
+        return True
+
+    def handle(self, filename, client_address, server_address, context):
+        return io.BytesIO(b"x" * 100)
+
+
+>>>>>>> dev-tftp
 def main(nproc, dur):
     srv = TftpServer([H()], bind_address="::1", bind_port=0, default_timeout=1, max_retries=1)
     srv.start()
     try:
         port = srv._socket.getsockname()[1]
+<<<<<<< HEAD
         c = socket.socket(socket.AF_INET6, socket.SOCK_DGRAM); c.bind(("::1", 0))
+=======
+        c = socket.socket(socket.AF_INET6, socket.SOCK_DGRAM)
+        c.bind(("::1", 0))
+>>>>>>> dev-tftp
         c.settimeout(0.2)
         c.sendto(b"\0\1f\0octet\0", ("::1", port))
         d, tid = c.recvfrom(2000)
         t0 = time.monotonic()
+<<<<<<< HEAD
         ps = [subprocess.Popen([sys.executable, "-c", FLOOD, str(tid[1]), str(dur)]) for _ in range(nproc)]
         got = []
         ended = None
@@ -43,3 +87,27 @@ def main(nproc, dur):
     finally:
         srv.stop()
 main(int(sys.argv[2]), float(sys.argv[3]))
+=======
+        assert d[:4] == b"\0\3\0\1", d[:4]
+        ps = [subprocess.Popen([sys.executable, "-c", FLOOD, str(tid[1]), str(dur)]) for _ in range(nproc)]
+        got = []
+        while time.monotonic() - t0 < dur + 3:
+            try:
+                d2, _a = c.recvfrom(2000)
+                if d2[:2] == b"\0\3":
+                    got.append(round(time.monotonic() - t0, 2))
+            except socket.timeout:
+                pass
+        for p in ps:
+            p.wait()
+        ok = len(got) == 1 and got[0] < 1.5
+        print("%s: %d flooding processes for %.0f s; DATA 1 retransmitted at %s s (the property: once, at 1.0 s)"
+              % ("OK" if ok else "POSTPONED", nproc, dur, got))
+        return 0 if ok else 1
+    finally:
+        srv.stop()
+
+
+if __name__ == "__main__":
+    raise SystemExit(main(int(sys.argv[2]) if len(sys.argv) > 2 else 3, float(sys.argv[3]) if len(sys.argv) > 3 else 6))
+>>>>>>> dev-tftp
